@@ -89,6 +89,16 @@ def negotiate(chk, suite, limit, sets=None, behs=None):
     plan = []
     fixed_sets, fixed_behs = sets, behs
     sets = [None, [757], [47], [757, 757], [47, 757], [340, 47], sup[:1], sup[:2], sup[:10], sup[-3:], sup, [sup[0], sup[-1]], [], [5], [47, 9999], ['1.8', 757], ['nonsense'], [None], [4.5]]
+    # a protocol number listed under several version names that are not adjacent in the published list (754: 1.16.4 ... snapshots ... 1.16.5):
+    # "latest" is decided by the order of protocol numbers (PROTOCOL_VERSION_INDICES), not by where a name stands in the list
+    order_ = list(names.items())
+    for p in sorted(set(v for _k, v in order_)):
+        pos = [i for i, (_k, v) in enumerate(order_) if v == p]
+        between = [order_[i] for i in range(pos[0], pos[-1]) if order_[i][1] != p]
+        if between:
+            sets.append([p, between[-1][1]])
+            sets.append([order_[pos[-1]][0], between[0][0]])
+            sets.append([between[len(between) // 2][1], order_[pos[0]][0], sup[0]])
     for _ in range(80 if th else 25):
         k = rng.choice([1, 2, 2, 3, 5])
         sets.append([rng.choice(sup) for _ in range(k)])
